@@ -326,6 +326,9 @@ func Plan(ps *PropSpec, o Options) []Job {
 		if o.Only != "" && o.Only != it.Scenario {
 			continue
 		}
+		if it.Scenario == "race" && os.Getenv("VERIF_NORACE") != "" {
+			continue // development runs without the race-detector build (./check builds it unless this is set)
+		}
 		n := it.Count
 		if o.MaxCount > 0 && n > o.MaxCount {
 			n = o.MaxCount
